@@ -234,6 +234,22 @@ theorem permutation_witnesses_exist (n : Nat) :
   · simp only [scrambleLegal, Bool.not_false, Bool.true_or, Bool.and_true]
     exact List.isPerm_iff.mpr (List.reverse_perm _)
 
+/-- The guards reject exactly what the documentation excludes: a rate-gated mutation errs iff its
+strength or rate is invalid; `SwapMutation::execute` errs iff `num_swap` exceeds the solution
+length; `DEMutation::from_params` accepts exactly `y ∈ {1,2}` with `f` in range. -/
+theorem no_spurious_rejection {β : Type} (sv rv : Bool) (r : β) (k y : Nat) (fr : Bool) (sol : List α) (w : List Nat) :
+    (rateGated sv rv r = .ok r ↔ sv = true ∧ rv = true) ∧
+    (swapMutation k sol w = .err ↔ sol.length < k) ∧
+    (deCtorOk y fr = true ↔ (y = 1 ∨ y = 2) ∧ fr = true) := by
+  refine ⟨?_, ?_, ?_⟩
+  · cases sv <;> cases rv <;> simp [rateGated]
+  · unfold swapMutation
+    by_cases h : sol.length < k
+    · simp [h]
+    · simp only [h, if_false, iff_false]
+      cases circularSwap sol w <;> simp
+  · simp [deCtorOk]
+
 /-- Offspring counts: every pair contributes both parents (no crossover), one child (insert-one) or
 two children (insert-both); an odd remainder passes through. -/
 theorem recombination_counts {β : Type} (parents : List β) (rs : List (OptPair β))
@@ -298,6 +314,8 @@ example : deExpLegal false false 4 [true, false, false, true] = true := by decid
 example : deExpLegal true false 4 [false, false, true, false] = true := by decide
 example : deMutation 1 (2 : Int) [[1, 1], [5, 0], [2, 7], [0, 0], [1, 1], [1, 1]] = .ok [[7, -13], [0, 0]] := by decide
 example : maskLegal true false [false, false, false] 3 = true := by decide
+example : ∀ t ∈ [(1 / 2 : Rat), 3 / 10, 0, 1], 0 ≤ t ∧ t ≤ 1 := by
+  intro t ht; simp at ht; rcases ht with rfl | rfl | rfl | rfl <;> norm_num
 
 /-! Non-vacuity of the hypotheses, on concrete inputs. -/
 example : circularSwap [10, 11, 12, 13, 14] [1, 0, 4, 2] = some [11, 12, 14, 13, 10] := by decide
